@@ -46,7 +46,7 @@ class State:
 
 
 class CallSite:
-    def __init__(self, bb, term, args, state, fn):
+    def __init__(self, bb, term, args, state, fn, db=None):
         self.bb = bb
         self.term = term
         self.args = args  # evaluated argument values
@@ -55,6 +55,14 @@ class CallSite:
         self.fn = fn  # callee def path ("" for indirect)
         self.res = (term["f"].get("res") or fn) if term["f"]["k"] == "fn" else ""
         self.targs = [a for a in term["f"].get("args", []) if a.get("k") != "region"] if term["f"]["k"] == "fn" else []
+        # stable key of a crate-local callee (independent of generic-parameter names)
+        self.key = None
+        if db is not None:
+            for p in (self.res, fn):
+                b = db.by_path.get(p)
+                if b is not None:
+                    self.key = b["key"]
+                    break
         self.ret = None
         self.at = term.get("at")
         self.exp = term.get("exp")
@@ -62,6 +70,9 @@ class CallSite:
 
 class Analysis:
     def __init__(self, facts_db, body, models=None):
+        if models is None:
+            from .models import MODELS
+            models = MODELS
         self.db = facts_db
         self.body = body
         self.mir = body["mir"]
@@ -77,8 +88,10 @@ class Analysis:
         self.drops = []
         self.casts = []
         self.aggregates = []
+        self.derefs = []  # raw-pointer dereference / reborrow sites
         self.unknown = []  # constructs the interpreter did not understand (reported)
         self._fresh = 0
+        self._rec = False
 
     def _inherited_predicates(self):
         # closures inherit the where-clauses of their root function
@@ -130,6 +143,9 @@ class Analysis:
                 ty = e.get("ty")
             elif isinstance(e, dict) and "down" in e:
                 path = path + (("v", e["down"]),)
+            elif isinstance(e, dict) and "cidx" in e and not e.get("from_end"):
+                path = path + (e["cidx"],)
+                ty = ty.get("t") if ty and ty.get("k") in ("array", "slice") else None
             elif isinstance(e, dict) and "idx" in e:
                 iv = self.read_cell(st, ("local", e["idx"]), (), self.local_ty(e["idx"]))
                 path = path + (("idx", iv),)
@@ -287,6 +303,10 @@ class Analysis:
             if pl["p"] and pl["p"][-1] == "*":
                 inner = {"l": pl["l"], "p": pl["p"][:-1]}
                 v = self.read_place(st, inner)
+                ity = self.place_ty(inner)
+                if ity is not None and ity.get("k") == "ptr":
+                    self._rec and self.derefs.append({"site": site, "kind": "reborrow", "mut": rv.get("mut", False) if k == "ref" else None,
+                                        "ref": k == "ref", "ptr": v, "pointee": ity["t"], "facts": st.facts})
                 if v[0] == "P":
                     return v
             if path:
@@ -295,7 +315,7 @@ class Analysis:
         if k == "cast":
             v = self.operand(st, rv["op"])
             ck = rv["ck"]
-            self.casts.append({"site": site, "ck": ck, "val": v, "to": rv["ty"], "from": self.operand_ty(rv["op"]), "facts": st.facts})
+            self._rec and self.casts.append({"site": site, "ck": ck, "val": v, "to": rv["ty"], "from": self.operand_ty(rv["op"]), "facts": st.facts})
             if v[0] == "P":
                 if ck.startswith("PointerCoercion") and "Unsize" in ck:
                     ft = self.operand_ty(rv["op"])
@@ -352,11 +372,11 @@ class Analysis:
             else:
                 kind = ak
             val = ("A", kind, ops)
-            self.aggregates.append({"site": site, "kind": kind, "ops": ops, "rv": rv})
+            self._rec and self.aggregates.append({"site": site, "kind": kind, "ops": ops, "rv": rv, "facts": st.facts})
             return val
         if k == "repeat":
             return ("A", "repeat", (self.operand(st, rv["op"]), ("I", self.tenv.length(rv["n"]))))
-        self.unknown.append(("rvalue", site, rv.get("s", k)))
+        self._rec and self.unknown.append(("rvalue", site, rv.get("s", k)))
         return ("V", "rv?", site)
 
     def operand_ty(self, o):
@@ -431,7 +451,7 @@ class Analysis:
         def ptr(i=0):
             return args[i] if len(args) > i and args[i][0] == "P" else None
 
-        m = self.models.get(fn) or self.models.get(res)
+        m = self.models.get(cs.key) if cs.key else None
         if m is not None:
             r = m(self, st, cs)
             if r is not None:
@@ -467,8 +487,7 @@ class Analysis:
                     inner = self.read_cell(st, p[1], (), selfty) if not p[2].t else None
                     if inner is not None and inner[0] == "P":
                         return inner
-        if fn in ("GenericArray::<T, N>::as_slice", "GenericArray::<T, N>::as_mut_slice") or res in (
-                "GenericArray::<T, N>::as_slice", "GenericArray::<T, N>::as_mut_slice"):
+        if cs.key in ("GenericArray<$0,$1>::as_slice", "GenericArray<$0,$1>::as_mut_slice"):
             p = ptr()
             if p and len(targs) >= 2:
                 return ("P", p[1], p[2], te.length(targs[1]))
@@ -567,6 +586,10 @@ class Analysis:
 
     def is_pure(self, cs):
         fn = cs.fn
+        if cs.key is not None:
+            from .models import PURE_KEYS
+            if cs.key in PURE_KEYS:
+                return True
         if fn.startswith("core::slice::<impl [T]>::swap"):
             return False
         if fn in ("core::ops::Deref::deref",):
@@ -611,6 +634,7 @@ class Analysis:
 
     # ---- transfer --------------------------------------------------------------------------
     def exec_block(self, bb, st, record):
+        self._rec = record
         blk = self.blocks[bb]
         for i, s in enumerate(blk["stmts"]):
             site = (bb, i)
@@ -709,7 +733,7 @@ class Analysis:
             args = [self.operand(st, a) for a in t["args"]]
             f = t["f"]
             fn = f["def"] if f["k"] == "fn" else ""
-            cs = CallSite(bb, t, args, st, fn)
+            cs = CallSite(bb, t, args, st, fn, self.db)
             if f["k"] != "fn":
                 cs.fnval = self.operand(st, f["op"])
             pre = st.copy()
@@ -760,10 +784,42 @@ class Analysis:
             mem[k] = phi
             if va != phi:
                 changed = True
-        facts = a.facts & b.facts
+        facts = self.meet_facts(a.facts, b.facts)
         if facts != a.facts:
             changed = True
         return State(mem, facts), changed
+
+    def meet_facts(self, fa, fb):
+        """Facts implied by both sides: syntactic intersection plus weakenings provable from each side
+        (so `a < b || a > b` still yields `a != b` at the join)."""
+        if fa == fb:
+            return fa
+        common = fa & fb
+        cands = set()
+        for f in (fa | fb) - common:
+            if f[0] != "poly":
+                continue
+            rel, p = f[1], f[2]
+            cands.add(f)
+            if rel == ">=":
+                q = p + Poly.const(1)
+                if q.t:
+                    items = sorted(q.t.items(), key=lambda kv: repr(kv[0]))
+                    if items[0][1] < 0:
+                        q = -q
+                    cands.add(("poly", "!=", q))
+            elif rel == "==":
+                cands.add(("poly", ">=", p))
+                cands.add(("poly", ">=", -p))
+        if not cands:
+            return common
+        pa, pb = self.poly_facts(fa), self.poly_facts(fb)
+        keep = set(common)
+        for c in cands:
+            g = (c[1], c[2])
+            if (c in fa or prove(g, pa)) and (c in fb or prove(g, pb)):
+                keep.add(c)
+        return frozenset(keep)
 
     def phi_value(self, bb, k, va, vb, ty):
         tag = ("phi", bb, k)
@@ -830,12 +886,28 @@ class Analysis:
             self.edges[bb] = [s for s, _ in outs]
         return self
 
+    # ---- extents ---------------------------------------------------------------------------
+    def base_extent(self, base):
+        """Size in bytes (Poly) of the object a base denotes, when its type says so; else None."""
+        te = self.tenv
+        if base[0] == "arg":
+            ty = self.local_ty(base[1])
+            pt = pointee(ty)
+            if pt is None:
+                return None
+            if pt.get("k") == "slice":
+                return Poly.atom(("len", ("arg", base[1]))) * te.size(pt["t"])
+            return te.size(pt)
+        if base[0] == "local":
+            return te.size(self.local_ty(base[1]))
+        return None
+
     # ---- queries ---------------------------------------------------------------------------
     def reachable(self, bb):
         return bb in self.block_in
 
     def calls_to(self, *names):
-        return [c for c in self.calls if c.fn in names or c.res in names]
+        return [c for c in self.calls if c.fn in names or c.res in names or (c.key is not None and c.key in names)]
 
     def calls_matching(self, pred):
         return [c for c in self.calls if pred(c)]
